@@ -94,6 +94,13 @@ func StructConfigs(thorough bool, caches []string, formats []string) []*world.Co
 	cs = append(cs, world.StringCfg(2, []uint8{0, 1, 0, 2, 0}, f0, "none"))
 	// the same family of strings at another branch factor, after the one above (a layer must not be remembered across branch factors)
 	cs = append(cs, world.StringCfg(4, []uint8{0, 0, 1, 0, 0, 0}, f0, "none"))
+	// and once more with the library's default marshaler (RemoteConfig.Marshal left nil), at both branch factors
+	for _, bf := range []uint{2, 4} {
+		dm := world.StringCfg(bf, map[uint][]uint8{2: {0, 1, 0, 2, 0}, 4: {0, 0, 1, 0, 0, 0}}[bf], f0, "none")
+		dm.DefaultMarshal = true
+		dm.Name = "default-marshaler/" + dm.Name
+		cs = append(cs, dm)
+	}
 	cs = append(cs, world.BytesCfg(2, []uint8{0, 1, 0, 2, 0}, formats[len(formats)-1], "none"))
 	cs = append(cs, world.StructCfg(2, []uint8{0, 1, 0, 2, 0}, formats[len(formats)-1], "none"))
 	cs = append(cs, world.IntCfg(2, []int{-4, -2, -1, 0, 1, 2, 4}, []interface{}{"a"}, "", f0, "none"))
